@@ -466,6 +466,29 @@ theorem stream_cancel_ends (s : Stream) (h : s.Idle) :
   rw [e1]
   refine ⟨rfl, rfl, ?_, ?_⟩ <;> rw [e2] <;> rfl
 
+/-- cancel does not drop what the running operation already holds: with a submission live, a cancelled
+stream still yields every completion of that submission (the token is only consulted between
+submissions), so bytes already taken from the socket reach the reader -/
+theorem stream_cancel_keeps_queued (s : Stream) (c : Cqe) (rest : List Cqe)
+    (h : s.op = some ⟨some (c :: rest)⟩) :
+    s.cancel.next = (tokOf s.fl c, { s.cancel with op := some ⟨if c.more then some rest else none⟩ }) :=
+  next_live s.cancel c rest h
+
+/-- … all of them, in order, before the stream ends: a cancelled stream whose live submission is
+`script` (complete) yields exactly `script.map tokOf`, then `None` without re-submitting -/
+theorem stream_cancel_drains_then_ends (s : Stream) (script : List Cqe) (hc : complete script = true)
+    (h : s.op = some ⟨some script⟩) :
+    (Stream.take script.length s.cancel).1 = script.map (tokOf s.fl) ∧
+      ((Stream.take script.length s.cancel).2.next).1 = .end_ ∧
+      ((Stream.take script.length s.cancel).2.next).2.nsub = s.nsub := by
+  have e := take_live s.cancel script hc h
+  rw [e]
+  refine ⟨rfl, ?_, ?_⟩
+  · have := next_cancelled ({ s.cancel with op := some ⟨none⟩ } : Stream) (Or.inr rfl) rfl
+    rw [this]
+  · have := next_cancelled ({ s.cancel with op := some ⟨none⟩ } : Stream) (Or.inr rfl) rfl
+    rw [this]; rfl
+
 /-- a failing factory yields its error and submits nothing -/
 theorem stream_factory_error (s : Stream) (k : Nat) (rest : List Sub) (h : s.Idle)
     (hc : s.cancelled = false) (hs : s.subs = .fail k :: rest) :
